@@ -423,6 +423,7 @@ func genWalkScn(r *Rng, nblocks int) *WalkScn {
 	ws.Reentrant = r.Chance(0.15)
 	ws.SameOpts = ws.Reentrant && r.Chance(0.5)
 	ws.Warm = r.Chance(0.3)
+	ws.GC = r.Chance(0.03)
 	n := r.Range(0, 120)
 	p0 := []float64{0, 0.02, 0.1, 0.3, 0.5}[r.Intn(5)]
 	var sb strings.Builder
@@ -639,7 +640,7 @@ func genSink(r *Rng) []*Scenario {
 				continue // quick tier: every third failure point for the third flavour
 			}
 			out = append(out, &Scenario{Property: "C20", Phase: "fail-at", Doc: doc,
-				Writer: &WriterScn{Flavour: fl, FailAt: j, ByteBudget: -1, Partial: (j % 3)}})
+				Writer: &WriterScn{Flavour: fl, FailAt: j, ByteBudget: -1, Partial: (j % 3), GC: j%29 == 7}})
 			if fl != "richwriter" && (tierThorough || (j+len(fl))%2 == 0) {
 				// ... and the same failure point with the full count reported
 				out = append(out, &Scenario{Property: "C20", Phase: "fail-at", Doc: doc,
@@ -838,6 +839,9 @@ func evaluate(s *Scenario, st *runStats) (fail *Failure) {
 			if obs.Warmed {
 				st.Probes["options_value_had_served_an_earlier_complete_walk"]++
 			}
+			if obs.Collections > 0 {
+				st.Faults["garbage_collection_at_a_chosen_instant"] += obs.Collections
+			}
 			if s.Walk.PostNil {
 				st.Probes["post_nil"]++
 			}
@@ -932,6 +936,9 @@ func evaluate(s *Scenario, st *runStats) (fail *Failure) {
 			}
 			st.Logical["writes"] += int64(obs.Writes)
 			st.Outcome = uint64(obs.Writes)<<32 ^ uint64(obs.HealthyLen)
+			if obs.Collected {
+				st.Faults["garbage_collection_at_a_chosen_instant"]++
+			}
 			if obs.StdWriters > 0 {
 				st.Probes["healthy_run_into_bytes.Buffer_strings.Builder_bufio.Writer"]++
 			}
